@@ -68,6 +68,8 @@ def gf_ok(crys, chem, sitelist, jn):
     another under the space group (garnet-like), so that one diffusivity describes all of them"""
     if not jn:
         return False
+    if extra_translation(crys, chem, jn) or loop_lattice_index(crys, chem, jn) != 1:
+        return False
     inv = invmap(sitelist)
     N = len(inv)
     rho, jumps = interstitial_ref.rates_from_data(jn, inv, [1.] * len(sitelist), [0.] * len(sitelist), [1.] * len(jn), [0.] * len(jn))
@@ -92,3 +94,79 @@ def gf_ok(crys, chem, sitelist, jn):
         if any(np.abs(D - Ds[0]).max() > 1e-9 * np.abs(Ds[0]).max() for D in Ds):
             return False
     return True
+
+
+def extra_translation(crys, chem, jn):
+    """True when the sublattice of the diffusing species together with its jump network is invariant under a translation
+    that is not a lattice translation of the crystal (the other species break it).  The symmetrised rate matrix Omega(q) is
+    then singular at non-zero q (known finding R36: GFCrystalcalc.SetRates raises LinAlgError or loses accuracy)."""
+    L = np.array(crys.lattice)
+    basis = [np.array(u) for u in crys.basis[chem]]
+    n = len(basis)
+    if n < 2:
+        return False
+    jumps = set()
+    for jl in jn:
+        for (i, j), dx in jl:
+            jumps.add((i, j, tuple(np.round(dx, 5))))
+    for k in range(1, n):
+        t = basis[k] - basis[0]
+        perm = []
+        for u in basis:
+            v = u + t
+            m = [q for q, w in enumerate(basis) if np.linalg.norm(L @ geom.wrap(v - w)) < 1e-6]
+            if not m:
+                break
+            perm.append(m[0])
+        else:
+            if all((perm[i], perm[j], dx) in jumps for (i, j, dx) in jumps):
+                return True
+    return False
+
+
+def loop_lattice_index(crys, chem, jn):
+    """index in the crystal lattice of the lattice spanned by the closed loops of the jump network (per connected component of
+    the site graph; the maximum is returned).  0 = some component does not percolate in all directions; 1 = ordinary connected
+    network; k > 1 = the component is really k disjoint copies shifted by lattice vectors, which neither
+    GFCrystalcalc.networkcount nor a site-index connectivity test can see (known finding R36)."""
+    basis = [np.array(u) for u in crys.basis[chem]]
+    d = crys.dim
+    edges = {}
+    for jl in jn:
+        for (i, j), dx in jl:
+            R = np.round(crys.invlatt @ dx - basis[j] + basis[i]).astype(int)
+            edges.setdefault(i, []).append((j, R))
+    worst = 1
+    seen = set()
+    for root in range(len(basis)):
+        if root in seen or root not in edges:
+            continue
+        off = {root: np.zeros(d, dtype=int)}
+        stack = [root]
+        loops = []
+        while stack:
+            a = stack.pop()
+            for (b, R) in edges.get(a, []):
+                if b not in off:
+                    off[b] = off[a] + R
+                    stack.append(b)
+                else:
+                    v = off[a] + R - off[b]
+                    if np.any(v != 0):
+                        loops.append(v)
+        seen.update(off)
+        if not loops:
+            return 0
+        M = np.array(loops, dtype=int)
+        # index of the integer lattice spanned by rows of M: gcd of all d x d minors
+        import itertools, math
+        if np.linalg.matrix_rank(M) < d:
+            return 0
+        g = 0
+        rows = M[:60]
+        for comb in itertools.combinations(range(len(rows)), d):
+            g = math.gcd(g, int(round(abs(np.linalg.det(rows[list(comb)])))))
+            if g == 1:
+                break
+        worst = max(worst, g)
+    return worst
